@@ -381,6 +381,21 @@ def cases(prop, tier, seed):
     steps.append(['adv', 50])
     out.append({'kind': kind, 'nep': 1, 'rseed': rng3.randint(0, 10 ** 6), 'open_timeout': None, 'plans': [['ok', 0]],
                 'steps': steps, 'pool': None, 'auto': None, 'send_max': rng3.choice([65000, 60000, 40000, 700, 65536])})
+  # more than 32 (64) frames queued behind a stall that ends in the very tick in which the deadline of one of them
+  # (position 30-36, 63-66 in the queue) fires: a send loop that gives way between looking at a queued call's
+  # deadline and writing it (batching, fairness yields) writes the request of a call that has just timed out
+  for pos in ((30, 31, 32, 33, 34, 35, 36, 63, 64, 65, 66) if tier == 'quick' else tuple(range(2, 70))):
+    for T in (297, 303):
+      stall = 300
+      steps = [['adv', 300], ['issue', 1, 1003], ['adv', 10], ['reply', 0], ['adv', 10], ['stall', stall]]
+      ncalls = max(40, pos + 6)
+      for c in range(2, ncalls + 2):
+        steps.append(['issue', c, T if c - 1 == pos else 2003])
+      steps += [['adv', stall + 100]] + [['reply', 0]] * ncalls + [['adv', 100]]
+      # same-instant order of the stall ending and the timer queue waking up: every discipline of the virtual loop
+      for libev, tb in ((False, None), (True, None), (True, 1), (False, 0), (True, 0)):
+        out.append({'kind': 'mux', 'nep': 1, 'rseed': pos, 'open_timeout': None, 'plans': [['ok', 0]],
+                    'steps': steps, 'pool': None, 'auto': None, 'libev': libev, 'tiebreak': tb})
   return out
 
 
